@@ -55,6 +55,7 @@ import (
 	"math/rand"
 	"os"
 	"reflect"
+	"runtime/debug"
 	"sort"
 	"strconv"
 	"strings"
@@ -259,10 +260,47 @@ type c05parsed struct {
 	medias   int
 }
 
+// c05lastPanicFn names the library function in which the last recovered panic was raised
+// (the driver is single-threaded while parsing): it makes known-finding keys specific.
+var c05lastPanicFn string
+
+func c05panicFrame(stack []byte) string {
+	for _, ln := range strings.Split(string(stack), "\n") {
+		if strings.HasPrefix(ln, "github.com/bluenviron/") && !strings.Contains(ln, "verifharness") {
+			fn := ln
+			if i := strings.Index(fn, "("); i > 0 {
+				fn = fn[:i]
+			}
+			if i := strings.LastIndex(fn, "/"); i >= 0 {
+				fn = fn[i+1:]
+			}
+			return fn
+		}
+	}
+	return "unknown"
+}
+
+// c05why refines the class of a case with what went wrong, so that a known finding does not
+// hide a different failure of the same input class.
+func c05why(class string, accepted, stable, panicked bool, diff string) string {
+	switch {
+	case panicked:
+		return class + "/panic:" + c05lastPanicFn
+	case accepted && !stable:
+		d := diff
+		if i := strings.IndexAny(d, " .:["); i > 0 {
+			d = d[:i]
+		}
+		return class + "/unstable:" + d
+	}
+	return class
+}
+
 func c05parse(doc []byte) (r c05parsed) {
 	defer func() {
 		if p := recover(); p != nil {
 			r.ok, r.panicked, r.err, r.d = false, true, "panic: "+fmt.Sprint(p), nil
+			c05lastPanicFn = c05panicFrame(debug.Stack())
 		}
 	}()
 	sd, err := sdpunmarshaler.Unmarshal(doc)
@@ -594,7 +632,7 @@ func c05linesTrace(s *vt.Sink, class string, seqs []c05seq, rng *rand.Rand, samp
 			c05detail("lines keys=%q accepted=%v stable=%v panic=%v diff=%s err=%s", q.K, r.accepted, r.stable, r.panicked, r.diff, r.first.err)
 		}
 		if keep || !good {
-			tr.Emit("sdpparse", "accepted", r.accepted, "stable", r.stable, "panic", r.panicked, "why", "lines",
+			tr.Emit("sdpparse", "accepted", r.accepted, "stable", r.stable, "panic", r.panicked, "why", c05why("lines", r.accepted, r.stable, r.panicked, r.diff),
 				"d", r.diff, "s", q.K)
 		}
 	}
@@ -1063,7 +1101,7 @@ func c05mutTrace(s *vt.Sink, class string, seed int64, from, n int) {
 			c05detail("mutated i=%d accepted=%v stable=%v panic=%v diff=%s err=%s\n--- document:\n%s",
 				i, r.accepted, r.stable, r.panicked, r.diff, r.first.err, c05clip(doc))
 		}
-		tr.Emit("sdpparse", "accepted", r.accepted, "stable", r.stable, "panic", r.panicked, "why", "mutated",
+		tr.Emit("sdpparse", "accepted", r.accepted, "stable", r.stable, "panic", r.panicked, "why", c05why("mutated", r.accepted, r.stable, r.panicked, r.diff),
 			"d", r.diff, "i", i)
 	}
 	tr.Emit("end")
@@ -1159,7 +1197,7 @@ func c05truncTrace(s *vt.Sink, class string, from, n int) {
 				all[i].why, i, r.accepted, r.stable, r.panicked, r.diff, r.first.err,
 				c05clip([]byte(strings.Split(string(doc), "\r\n")[all[i].line])))
 		}
-		tr.Emit("sdpparse", "accepted", r.accepted, "stable", r.stable, "panic", r.panicked, "why", all[i].why,
+		tr.Emit("sdpparse", "accepted", r.accepted, "stable", r.stable, "panic", r.panicked, "why", c05why(all[i].why, r.accepted, r.stable, r.panicked, r.diff),
 			"d", r.diff, "i", i)
 	}
 	tr.Emit("end")
